@@ -37,7 +37,7 @@ func main() {
 			Rule:        "large runs (1500..4000 entries) so the 32 Kbit bloom filter yields false positives: absent keys before the first / after the last / between entries must answer NotFound (not panic, not a wrong entry), present keys must be found; non-trivial = always; distinct by run hash"},
 		&lib.Prop{ID: "C17", Part: "concurrent", Level: "exploration", NCases: n(6, 120), Run: concurrentCase,
 			Assumptions: []string{"goroutine interleavings are whatever the scheduler produces under load (16 shards); the race build repeats the part"},
-			Rule:        "tables under the concurrency a live database puts on them: (a) 40 rounds per case, 2..8 goroutines do their FIRST Get / ScanPrefix together on a table freshly re-opened from its descriptor (lazy footer load) and every one must get the stored entry; (b) 4..8 goroutines call Write on ONE TableWriter 250 times each (flush and compaction share the database's writer): every table gets its own file and, re-opened from its descriptor, returns exactly what was written to it; panics in the code under test are reported with their stack; non-trivial = always"},
+			Rule:        "tables under the concurrency a live database puts on them: (a) 40 rounds per case, 2..8 goroutines do their FIRST Get / ScanPrefix together on a table freshly re-opened from its descriptor (lazy footer load) and every one must get the stored entry; (b) 4..8 goroutines call Write on ONE TableWriter 250 times each (flush and compaction share the database's writer): every table gets its own file and, re-opened from its descriptor, returns exactly what was written to it; (c) 6 WAL writers per case: 2000..5000 Put/Delete with a Cut every 1..3 operations on one goroutine while another keeps calling Truncate with earlier sequence numbers (newest cut / half way / far behind) (the writer's documented contract), then Rotate+Save and replay from four start markers; panics in the code under test are reported with their stack; non-trivial = always"},
 		&lib.Prop{ID: "C17", Part: "wal", Level: "exploration", NCases: n(5000, 150000), Run: walCase,
 			Assumptions: []string{"Truncate arguments are non-decreasing and never exceed the last cut point (what DB passes: LatestSeqNum of the flushed tables)"},
 			Rule:        "scripts of Put/Delete/Cut/Truncate(s)/Rotate on wal.Writer (sequence numbers contiguous from 1), ending in Rotate+Save; the saved file is read with Handle{After:a} (also through the HandleDocument JSON form) for EVERY a from the largest truncation point to the last sequence number; output must equal the appended ops with seq>a in order; non-trivial = script has a Rotate followed by a Truncate, or >=2 cuts; distinct by script hash"},
